@@ -39,13 +39,21 @@ func perShard(total int) int {
 	return c
 }
 
+// shrinkTimes bounds shrinking for sub-checks whose failing cases are slow (bounded waits).
+var shrinkTimes = map[string]string{"healing": "20s", "storm": "25s", "cycle": "20s", "exhaust": "15s"}
+
 func setRapid(kind string, checks int) {
 	_ = flag.Set("rapid.checks", strconv.Itoa(checks))
 	_ = flag.Set("rapid.seed", strconv.FormatUint(seedFor(kind), 10))
 	_ = flag.Set("rapid.nofailfile", "true")
-	if os.Getenv("VERIF_SHRINKTIME") != "" {
-		_ = flag.Set("rapid.shrinktime", os.Getenv("VERIF_SHRINKTIME"))
+	st := "30s"
+	if d, ok := shrinkTimes[kind]; ok {
+		st = d
 	}
+	if os.Getenv("VERIF_SHRINKTIME") != "" {
+		st = os.Getenv("VERIF_SHRINKTIME")
+	}
+	_ = flag.Set("rapid.shrinktime", st)
 }
 
 // safely runs the oracle and turns a panic of the code under test into a failure.
